@@ -32,15 +32,19 @@ func (p *recProc) Broadcast(data []byte) {
 	p.bcast = append(p.bcast, append([]byte{}, data...))
 	p.events = append(p.events, fmt.Sprintf("bcast(%x)", data))
 }
-func (p *recProc) Disqualify(i int, log string)      { p.events = append(p.events, fmt.Sprintf("disqualify(%d)", i)) }
-func (p *recProc) FlagMisbehavior(i int, log string) { p.events = append(p.events, fmt.Sprintf("flag(%d)", i)) }
+func (p *recProc) Disqualify(i int, log string) {
+	p.events = append(p.events, fmt.Sprintf("disqualify(%d)", i))
+}
+func (p *recProc) FlagMisbehavior(i int, log string) {
+	p.events = append(p.events, fmt.Sprintf("flag(%d)", i))
+}
 
 type vssCase struct {
-	n, t, dealer, me int
-	vKind, sKind     string
-	order            string // sequence over V S v s (lower case = second copy)
-	vec, share       []byte // first copies
-	vec2, share2     []byte
+	n, t, dealer, me      int
+	vKind, sKind          string
+	order                 string // sequence over V S v s (lower case = second copy)
+	vec, share            []byte // first copies
+	vec2, share2          []byte
 	vecPoly, vec2Poly     int // polynomial a valid vector commits to (0 honest, 1 alternative), -1 = invalid vector
 	sharePoly, share2Poly int // polynomial a well-formed share belongs to, -1 = malformed or on no polynomial
 	allHonest             bool
